@@ -385,7 +385,13 @@ func VerifC05_History() {
 // VerifC05_SameBlock: several staking-state changes land in ONE block (two or three validators leave, join or change
 // power before the same EndBlock), also with an unstaking time of zero (a legal parameter value: the unstake matures in
 // the block it begins): the single batch is applicable and yields the top-MaxValidators set.
-func VerifC05_SameBlock() {
+func VerifC05_SameBlock() { vSameBlock("C05") }
+
+// VerifC09_SameBlock: the same, read for jailing: validators jailed (or otherwise removed) in one block all are absent
+// from Tendermint's set after that block's update.
+func VerifC09_SameBlock() { vSameBlock("C09") }
+
+func vSameBlock(p string) {
 	e := keeper.VNewEnv(3)
 	for i := 0; i < 3; i++ {
 		e.Fund(e.Addrs[i], sdk.NewInt(1<<41))
@@ -400,7 +406,7 @@ func VerifC05_SameBlock() {
 		e.K.SetParams(e.Ctx, p)
 	}
 	tm := &vTMSet{}
-	vEndBlock(e, tm, "C05.sameblock.genesis")
+	vEndBlock(e, tm, p+".sameblock.genesis")
 	h := NewHandler(e.K)
 	for i := 0; i < 3; i++ {
 		switch zz.Choice("change", 5) {
@@ -416,7 +422,36 @@ func VerifC05_SameBlock() {
 			_ = e.Slash(i, 2, sdk.NewDecWithPrec(5, 1))
 		}
 	}
-	vEndBlock(e, tm, "C05.sameblock.after-changes")
-	vEndBlock(e, tm, "C05.sameblock.idle")
-	zz.Reach("C05.sameblock")
+	vEndBlock(e, tm, p+".sameblock.after-changes")
+	vEndBlock(e, tm, p+".sameblock.idle")
+	zz.Reach(p + ".sameblock")
+}
+
+// VerifC05_GenesisDuplicateKey: a genesis that lists the same consensus public key twice (under different operator
+// addresses) either is refused by ValidateGenesis or - if it gets through - does not make InitGenesis emit the same
+// key twice in the InitChain batch.
+func VerifC05_GenesisDuplicateKey() {
+	e := keeper.VNewEnv(3)
+	v0 := types.NewValidator(e.Addrs[0], e.Pubs[0], sdk.NewInt(3000000))
+	v1 := types.NewValidator(e.Addrs[1], e.Pubs[1], sdk.NewInt(4000000))
+	dup := zz.Choice("duplicate", 3)
+	switch dup {
+	case 1: // same consensus key, another address
+		v1.PublicKey = e.Pubs[0]
+	case 2: // same address and key listed twice
+		v1 = v0
+	}
+	data := types.GenesisState{Params: types.DefaultParams(), Validators: []types.Validator{v0, v1}, PrevStateTotalPower: sdk.ZeroInt()}
+	err := ValidateGenesis(data)
+	if dup == 0 {
+		zz.Assert("C05.genesis-dup.distinct-validators-accepted", err == nil)
+	}
+	if err != nil {
+		zz.Reach("C05.genesis-dup.refused")
+		return
+	}
+	updates := InitGenesis(e.Ctx, e.K, e.AK, data)
+	tm := &vTMSet{}
+	zz.Assert("C05.genesis-dup.initchain-batch-applicable", tm.apply(updates) == "")
+	zz.Reach("C05.genesis-dup.end")
 }
